@@ -371,7 +371,7 @@ ParamErr(t, ps, k) ==          \* ps: the rule_param events of one rule_params, 
            base == ParamBase(Tok(t, q.a), hasval)
        IN IF base \notin {"skipws", "ws", "split"} THEN "syntax"
           ELSE IF base = "split" /\ (~hasval \/ Tok(t, q.b - 2) \in EmptyStrs) THEN "textx"
-          ELSE IF base = "ws" /\ ~hasval THEN "unknown"
+          ELSE IF base = "ws" /\ ~hasval THEN "textx"
           ELSE ParamErr(t, ps, k + 1)
 
 SeqOfIdx(ev, I) == LET RECURSIVE F(_, _)
@@ -385,13 +385,13 @@ NodeErr(t, ev, i) ==
   CASE e.r = "rule_params" ->
          ParamErr(t, SeqOfIdx(ev, {j \in EvOf(ev, "rule_param") : Inside(ev[j], e)}), 1)
     [] e.r = "re_match"  -> IF Tok(t, e.a) \in BadRes THEN "syntax" ELSE ""
-    [] e.r = "str_match" -> IF Tok(t, e.a) \in BadEscStrs THEN "unknown" ELSE ""
+    [] e.r = "str_match" -> IF Tok(t, e.a) \in BadEscStrs THEN "syntax" ELSE ""
+    [] e.r = "rule_name" -> IF Tok(t, e.a) \in AsgnNames THEN "semantic" ELSE ""    \* reserved prefix
     [] e.r = "obj_ref"   -> IF Tok(t, e.a + 2) \in Builtins THEN "semantic" ELSE ""
     [] e.r = "repeatable_expr" ->
          LET o == OpOf(ev, e) IN
          IF o = 0 THEN ""
          ELSE IF Tok(t, ev[o].a) = "?" /\ NTok(ev[o]) > 1 THEN "syntax"
-         ELSE IF Tok(t, ev[o].a) = "#" /\ BareRef(ToksOf(t, ev[ExprOf(ev, e)])) THEN "unknown"
          ELSE ""
     [] e.r = "assignment" ->
          LET attr == Tok(t, e.a)
@@ -407,7 +407,6 @@ NodeErr(t, ev, i) ==
              reps  == {j \in EvOf(ev, "repeatable_expr") : Inside(ev[j], e) /\ OpOf(ev, ev[j]) # 0
                                                          /\ Tok(t, ev[OpOf(ev, ev[j])].a) \in {"*", "+"}}
          IN IF \E j \in bools, k \in reps : Inside(ev[j], ev[k]) THEN "semantic"
-            ELSE IF Tok(t, e.a) \in AsgnNames THEN "unknown"
             ELSE ""
     [] OTHER -> ""
 
@@ -449,13 +448,14 @@ Facts(text) == LET t == Strip(text)
 \*   "textx"    plain TextXError (split parameter without a non-empty string)
 \*   "import"   the documented exception: import in a grammar given as a string
 \*   "ok"       a metamodel
-\*   "unknown"  the documentation does not say (the cases behind the C23 deviation clauses, registry-dependent references)
+\*   "unknown"  registry-dependent references (the documentation does not say)
 ClassF(f) ==
   IF ~f.ok THEN "syntax"
   ELSE IF HasImport(f.ev) THEN "import"
   ELSE LET x == FirstErr(f.t, f.ev, 1) IN
        IF x # "" THEN x
-       ELSE IF HasAliasCycle(f.t, f.ev) \/ UsesReferencedLanguage(f.t, f.ev) THEN "unknown"
+       ELSE IF UsesReferencedLanguage(f.t, f.ev) THEN "unknown"
+       ELSE IF HasAliasCycle(f.t, f.ev) THEN "semantic"      \* a rule defined only by a reference to itself
        ELSE IF Unresolved(f.t, f.ev) THEN "semantic"
        ELSE "ok"
 Class(text) == ClassF(Facts(text))
